@@ -309,7 +309,7 @@ type base struct {
 func main() { harness.Main("C02", "model_checking", run) }
 
 func run(r *harness.Run) {
-	r.Rule("explicit-state search: start objects = every subset of <=3 members from an 8-key menu (keys needing escapes, dotted keys, non-ASCII, and nested members that are themselves named signatures / unsigned) with typed values (big integers, nested objects/arrays, strings with <&>), optionally carrying a foreign signature and/or unsigned; operation alphabet (10): sign by 3 identities (two key IDs of one entity, one other entity), re-serialise in 3 non-canonical presentations, set/replace/delete unsigned, add a foreign signature; all sequences up to depth D. After every transition: VerifyJSON for every identity == reference (signed set), signature bytes == ed25519 over refjson canonical form, wrong name/key ID/public key refused, ListKeyIDs == reference. On every distinct reached state: every single-member mutation (value change incl. +1 on integers, insert, delete, rename, nested edit, array edits) must fail verification; mutations confined to unsigned / foreign signatures must not. Non-trivial = distinct state text with >=1 signature.")
+	r.Rule("explicit-state search: start objects = every subset of <=2 members (and the triples of the five entries that differ in key shape; thorough: every subset of <=4) from a 10-key menu (keys needing escapes, dotted keys, non-ASCII, and nested members that are themselves named signatures / unsigned) with typed values (big integers, nested objects/arrays, strings with <&>), optionally carrying a foreign signature and/or unsigned; operation alphabet (10): sign by 3 identities (two key IDs of one entity, one other entity), re-serialise in 3 non-canonical presentations, set/replace/delete unsigned, add a foreign signature; all sequences up to depth D. After every transition: VerifyJSON for every identity == reference (signed set), signature bytes == ed25519 over refjson canonical form, wrong name/key ID/public key refused, ListKeyIDs == reference. On every distinct reached state: every single-member mutation (value change incl. +1 on integers, insert, delete, rename, nested edit, array edits) must fail verification; mutations confined to unsigned / foreign signatures must not. Non-trivial = distinct state text with >=1 signature.")
 	r.Assume("ed25519 is deterministic and trusted", "objects with duplicate keys are outside the property")
 	type replayIn struct {
 		Start string
@@ -318,9 +318,13 @@ func run(r *harness.Run) {
 	// start objects
 	menu := [][2]string{
 		{"a", `1`}, {"b", `"s<&>"`}, {"é", `{"n":{"m":[1,2,"x"]}}`}, {"x.y", `[1,{"k":"v"},null]`}, {"a\"b\\", `9007199254740992`}, {"t", `true`}, {"big", `12345678901234567890`},
+		// keys whose order as raw JSON tokens differs from their order as decoded strings ("a" < "a b" decoded, but the
+		// closing quote sorts after the space; "a\nz" < "a b" decoded, but the backslash sorts after the space)
+		{"a b", `2`}, {"a\nz", `3`},
 		// members NAMED like the two exempt top-level members, but nested: they are signed content like any other
 		{"content", `{"unsigned":{"age":1},"signatures":{"x.org":{"ed25519:1":"sig"}},"signed":{"signatures":{"s":1},"unsigned":2}}`},
 	}
+	keyShape := map[int]bool{0: true, 2: true, 4: true, 7: true, 8: true}
 	var starts []string
 	var sub func(start int, cur []int)
 	sub = func(start int, cur []int) {
@@ -335,6 +339,9 @@ func run(r *harness.Run) {
 			return
 		}
 		for i := start; i < len(menu); i++ {
+			if r.Quick() && len(cur) == 2 && !(keyShape[cur[0]] && keyShape[cur[1]] && keyShape[i]) {
+				continue // quick tier: triples only among the entries that differ in key shape (escapes, prefixes, non-ASCII)
+			}
 			sub(i+1, append(cur, i))
 		}
 	}
